@@ -330,7 +330,7 @@ time_t handle_timeout(struct handler *handler, struct trace *trace) {
 
     size_t path_length = strlen(get_path(head));
     bool is_project_head = get_metadata(head) & linq_meta_is_project;
-    if (*get_path(head) != '/' ||
+    if (*get_path(head) != '/' || get_path(head)[path_length - 1] == '/' ||
         get_metadata(head) >> linq_meta_project_offset > path_length ||
         (path_length < handler->common_parent_path_length &&
          !is_project_head)) {
